@@ -93,9 +93,13 @@ func (writer *dataWriter) Row(values []any) error {
 		return ErrClosedWriter
 	}
 
-	writer.written++
+	err := writer.columns.Write(writer.ctx, writer.formats, writer.client, values)
+	if err != nil {
+		return err
+	}
 
-	return writer.columns.Write(writer.ctx, writer.formats, writer.client, values)
+	writer.written++
+	return nil
 }
 
 func (writer *dataWriter) CopyIn(format FormatCode) (*CopyReader, error) {
